@@ -72,6 +72,10 @@ br_ec_keygen(const br_prng_class **rng_ctx,
 			cc = ((unsigned)(buf[u] - order[u] - cc) >> 8) & 1;
 			zz |= buf[u];
 		}
+#ifdef BR_VERIF
+		BR_VERIF_PUBLIC(&cc, sizeof cc);
+		BR_VERIF_PUBLIC(&zz, sizeof zz);
+#endif
 		if (cc != 0 && zz != 0) {
 			break;
 		}
